@@ -539,12 +539,14 @@ def log_model_ops(h):
     cfgs, ops = [], []
     i = 0
     for o, cf in zip(h["ops"], tl):
-        if o[0] == "restart":
-            continue
-        i += 1
         c = tuple(cf[o[1]])
         if c not in cfgs:
             cfgs.append(c)
+        if o[0] == "restart":
+            # a real operation of the model (the logger object is built anew, with the new settings)
+            ops.append("ORestart c%d" % cfgs.index(c))
+            continue
+        i += 1
         lens = [HEADER + o[2]] if o[0] == "w" else o[2]
         if o[1] in h["rf"]:
             ops.append("OWriteRF c%d %s" % (cfgs.index(c), clist([cN(x) for x in lens], "N")))
@@ -802,7 +804,8 @@ def gen_restart_history(rng, idx, names, ms, mc):
 
 
 def run_restart_history(h, exe, logdir):
-    """returns the history in the standard log-history form (ops 'w'/'m') plus the observed listings"""
+    """returns the history in the standard log-history form (ops 'restart' for both loggers at every
+    process start, then 'm' for the banner and 'w' for the lines) plus the observed listings"""
     import shutil
     shutil.rmtree(logdir, ignore_errors=True)
     os.makedirs(logdir)
@@ -817,6 +820,9 @@ def run_restart_history(h, exe, logdir):
         script = ["start"] + ["%s %d" % l for l in lines]
         out = [x[6:] for x in vplib.run_lines(exe, script, timeout=120) if x.startswith("@@C19 ")]
         assert len(out) == len(script), (len(out), len(script))
+        for n in h["names"]:
+            ops.append(("restart", n, list(h["cfg_init"][n])))
+            rs.append(None)
         for k, x in enumerate(out):
             d = {nm: sz for nm, sz, isf in json.loads(x)["ls"] if isf}
             if k == 0:
@@ -846,6 +852,8 @@ def run(ctx):
     consts = open(os.path.join(vplib.COQ, "Generated", "Consts.v")).read()
     m = re.search(r"Definition log_header_len : N := (\d+)\.", consts)
     HEADER = int(m.group(1))
+    dump_prefix = re.search(r"Definition rules_dump_search_prefix : list N := .*?\(\* '([^']*)'", consts).group(1)
+    dump_suffix = re.search(r"Definition rules_dump_search_suffix : list N := .*?\(\* '([^']*)'", consts).group(1)
     # the names the agent and the extension really use, as the code has them now
     real = {k: re.search(r"Definition %s : list N := .*?\(\* '([^']*)'" % k, consts).group(1)
             for k in ("agent_log_file_name", "agent_connection_log_file_name", "ext_handler_log_file", "ext_service_log_file")}
@@ -985,12 +993,16 @@ def run(ctx):
     for h, (l0, rs, errs) in zip(logs, impl_log):
         pre_names = {nm for nm, _ in h["pre"]}
         keep = {set_ext_log(c[0]) for c in [h["cfg_init"][n] for n in h["names"]]}
-        steps_, i = [], 0
+        steps_, i, last = [], 0, l0
         for o, r in zip(h["ops"], rs):
             if o[0] == "restart":
+                # the model's ORestart step is held against the directory as it was before the restart
+                # (the real restart is observed together with the first write after it)
+                steps_.append((i, last))
                 continue
             i += 1
             steps_.append((i, r))
+            last = r
         exp_log.append(to_model_names(steps_, pre_names, keep, REAL_TS, lambda i: "2026-99-%06d" % i))
     for h, (l0, rs) in zip(evs, impl_ev):
         pre_names = {nm for nm, _ in h["pre"]}
@@ -1090,6 +1102,21 @@ def run(ctx):
             disagreements.append({"case": case, "step": fd, "model": m, "impl(model names)": i})
         for o, l in zip(h["ops"], e):
             nontrivial.add(("dump", tuple(MODEL_TS.sub("<ts>", n) for n, _ in l), o[1]))
+        # hypothesis of C19_dumps_oldest_first_by_age, held against the code: every dump the code writes is
+        # named <search prefix><time stamp>.json -- the stamp directly after the fixed prefix, fixed shape,
+        # increasing from write to write
+        seen_d, last_stamp = set(l0), 0
+        for stepi, r in enumerate(rs):
+            for nm in sorted(set(r) - seen_d):
+                m_ = re.fullmatch(re.escape(dump_prefix) + "(" + REAL_TS.pattern + ")" + re.escape(dump_suffix), nm) if DUMP_RE.match(nm) else None
+                nanos = int(m_.group(1).rsplit("-", 1)[1]) if m_ else 0     # the unix-nanosecond part of the stamp
+                if DUMP_RE.match(nm) and not (m_ and nanos > last_stamp):
+                    if not any(d_.get("hypothesis") for d_ in disagreements):
+                        disagreements.append({"case": case, "step": stepi, "hypothesis": "dump names are <prefix><time stamp><suffix> with increasing stamps",
+                                              "model": dump_prefix + "<stamp>" + dump_suffix, "impl": nm})
+                elif m_:
+                    last_stamp = nanos
+            seen_d |= set(r)
         why = prop_dump(h, l0, rs)
         if why:
             failures.append({"case": case, "why": why, "impl": [sorted(r.items()) for r in rs]})
